@@ -212,7 +212,29 @@ func c19Worker(scratch string) func(string) string {
 				os.WriteFile(filepath.Join(d, c19UserFiles[u].Name), []byte(c19UserFiles[idx].Content), 0o644)
 				continue
 			}
-			os.WriteFile(filepath.Join(d, kv[0]+".go"), []byte(c19StaleContent(idx)), 0o644)
+			content := []byte(c19StaleContent(idx))
+			if idx >= 200 && len(cs.Hist) > 0 {
+				// a file that LOOKS up to date: derived from what the last invocation is going to write
+				// (200: that content plus a tail; 201: its first half; 202: same length, last byte changed)
+				ref, err := os.MkdirTemp(scratch, "ref")
+				if err == nil {
+					if c19Run(ref, cs.Hist[len(cs.Hist)-1]) == nil {
+						if bs, err := os.ReadFile(filepath.Join(ref, kv[0]+".go")); err == nil && len(bs) > 2 {
+							switch idx {
+							case 200:
+								content = append(bs, []byte("\n// stale tail\nvar staleTail = 1\n")...)
+							case 201:
+								content = bs[:len(bs)/2]
+							default:
+								content = append([]byte{}, bs...)
+								content[len(content)-2] ^= 1
+							}
+						}
+					}
+					os.RemoveAll(ref)
+				}
+			}
+			os.WriteFile(filepath.Join(d, kv[0]+".go"), content, 0o644)
 		}
 		for _, i := range cs.Hist {
 			if err := c19Run(d, i); err != nil {
@@ -299,6 +321,21 @@ func runC19(c runCfg) error {
 	for _, h := range hists {
 		cases = append(cases, c19Case{K: 0, Hist: h})
 		cases = append(cases, c19Case{K: 3, D0: []string{"o0=0", "o1=1", "o2=2"}, Hist: h})
+	}
+	// files that look up to date before the last run: every owned file x every invocation x three near-copies,
+	// as a one-step history and behind a different first step
+	for ai, a := range invs {
+		if c.Cases != "" {
+			break
+		}
+		for _, f := range c19Owned {
+			for _, kind := range []int{200, 201, 202} {
+				cases = append(cases, c19Case{K: 0, D0: []string{fmt.Sprintf("%s=%d", f, kind)}, Hist: []c19Inv{a}})
+				if kind == 200 {
+					cases = append(cases, c19Case{K: 0, D0: []string{fmt.Sprintf("%s=%d", f, kind)}, Hist: []c19Inv{invs[(ai+3)%len(invs)], a}})
+				}
+			}
+		}
 	}
 	rng := rand.New(rand.NewSource(c.Seed))
 	nrand := 60
